@@ -47,7 +47,11 @@ theorem DInv.torn {d : Disk} {A : List Rec} (i : DInv d A) (pre : List LogFile) 
     unfold Disk.setGarbage
     simp only [hf]
     exact map_upd_last pre F (fun f => { f with garbage := true }) hlt
-  refine ⟨?_, ?_, ?_, ?_, ?_, ?_⟩
+  have hrec : recsOf (d.setGarbage F.num true).files = recsOf d.files := by
+    rw [hfiles, hf, recsOf_snoc, recsOf_snoc]; rfl
+  refine ⟨?_, ?_, ?_, ?_, ?_, ?_, ?_, i.zlowAlt⟩
+  rotate_left 6
+  · intro w hw; rw [hrec]; exact i.presAlt w hw
   · rw [hfiles]
     exact numsAsc_of_map_eq (by simp) hasc
   · rw [hfiles]; exact garbageOnlyLast_snoc pre _ hc
@@ -74,7 +78,12 @@ theorem DInv.full {d : Disk} {A B C : List Rec} (i : DInv d A) (pre : List LogFi
     unfold Disk.appendBatch
     simp only [hf]
     exact map_upd_last pre F (fun f => { f with batches := f.batches ++ [B] }) hlt
-  refine ⟨⟨?_, ?_, ?_, ?_, ?_, ?_⟩, hfiles⟩
+  have hrec : recsOf (d.appendBatch F.num B).files = recsOf d.files ++ B := by
+    rw [hfiles, hf, recsOf_snoc, recsOf_snoc]
+    simp [recsOfFile, List.append_assoc]
+  refine ⟨⟨?_, ?_, ?_, ?_, ?_, ?_, ?_, i.zlowAlt⟩, hfiles⟩
+  rotate_left 6
+  · intro w hw; rw [hrec]; exact (i.presAlt w hw).append e
   · rw [hfiles]
     exact numsAsc_of_map_eq (by simp) hasc
   · rw [hfiles]; exact garbageOnlyLast_snoc pre _ (fun G hG => hc G (List.mem_append_left _ hG))
@@ -97,34 +106,68 @@ theorem DInv.full {d : Disk} {A B C : List Rec} (i : DInv d A) (pre : List LogFi
   · exact i.zlow
 
 /-- the watermark file replaced (or about to be) by a value between the old one and the highest
-acknowledged prune; no pending unlinks -/
-theorem DInv.setWm {d : Disk} {A : List Rec} (i : DInv d A) (w : Nat) (t : Bool) (h1 : d.wmVal ≤ w)
-    (h2 : w ≤ maxPrune A) (hz : d.zombies = []) : DInv { d with wm := some w, tmp := t } A := by
-  refine ⟨i.asc, i.garb, fun _ => hz, ?_, ?_, ?_⟩
+acknowledged prune; no pending unlinks; `alt`: what a crash may bring back -/
+theorem DInv.setWm {d : Disk} {A : List Rec} (i : DInv d A) (w : Nat) (t : Bool) (alt : Option (Option Nat))
+    (h1 : d.wmVal ≤ w) (h2 : w ≤ maxPrune A) (hz : d.zombies = [])
+    (halt : ∀ w', alt = some w' → Presents (w'.getD 0) (recsOf d.files) A) :
+    DInv { d with wm := some w, tmp := t, wmAlt := alt } A := by
+  refine ⟨i.asc, i.garb, fun _ => hz, ?_, ?_, ?_, halt, ?_⟩
   · intro z hzm; simp only [hz] at hzm; cases hzm
   · exact i.pres.raise h1 h2
   · simp only [hz]; simp [recsOf, Low]
+  · intro w' _; simp only [hz]; simp [recsOf, Low]
 
 theorem DInv.setTmp {d : Disk} {A : List Rec} (i : DInv d A) (t : Bool) : DInv { d with tmp := t } A :=
-  ⟨i.asc, i.garb, i.zgarb, i.zclean, i.pres, i.zlow⟩
+  ⟨i.asc, i.garb, i.zgarb, i.zclean, i.pres, i.zlow, i.presAlt, i.zlowAlt⟩
 
-theorem DInv.dropZombies {d : Disk} {A : List Rec} (i : DInv d A) : DInv { d with zombies := [] } A :=
-  ⟨i.asc, i.garb, fun _ => rfl, by simp, i.pres, by simp [recsOf, Low]⟩
+/-- a directory sync: pending unlinks and an undurable rename become durable -/
+theorem DInv.synced {d : Disk} {A : List Rec} (i : DInv d A) : DInv { d with zombies := [], wmAlt := none } A :=
+  ⟨i.asc, i.garb, fun _ => rfl, by simp, i.pres, by simp [recsOf, Low], by simp, by simp⟩
 
-/-- `cleanupObsoleteWALs`: the logs below the bound are unlinked -/
-theorem DInv.gc {d : Disk} {A : List Rec} (i : DInv d A) (m : Nat) (hw : d.wmVal = maxPrune A)
-    (hc : ∀ G ∈ d.files, G.garbage = false)
-    (hl : ∀ G ∈ d.files, G.num < m → Low (maxPrune A) (recsOfFile G)) :
-    DInv { d with files := d.files.filter (fun f => !decide (f.num < m)),
-                  zombies := d.files.filter (fun f => decide (f.num < m)) } A := by
-  have hsplit := asc_filter_split d.files m i.asc
-  have hlow : Low (maxPrune A) (recsOf (d.files.filter (fun f => decide (f.num < m)))) := by
+/-- `Presents` survives dropping any logs whose records are all at or below the highest
+acknowledged prune, once the watermark is that prune. -/
+theorem Presents.filter {w : Nat} {fs : List LogFile} {A : List Rec} (keep : LogFile → Bool)
+    (p : Presents w (recsOf fs) A) (hl : ∀ G ∈ fs, keep G = false → Low (maxPrune A) (recsOfFile G)) :
+    Presents (maxPrune A) (recsOf (fs.filter keep)) A := by
+  have key : maxPrune (recsOf (fs.filter keep)) ≤ maxPrune (recsOf fs) ∧
+      ∀ h, maxPrune A < h → entriesOf h (recsOf (fs.filter keep)) = entriesOf h (recsOf fs) := by
+    clear p
+    induction fs with
+    | nil => exact ⟨Nat.le_refl _, fun _ _ => rfl⟩
+    | cons F fs ih =>
+      obtain ⟨i1, i2⟩ := ih (fun G hG => hl G (List.mem_cons_of_mem _ hG))
+      by_cases hk : keep F = true
+      · simp only [List.filter_cons, hk, ↓reduceIte, recsOf_cons, maxPrune_append]
+        refine ⟨by omega, ?_⟩
+        intro h hh
+        rw [entriesOf_append, entriesOf_append, i2 h hh]
+      · have hk' : keep F = false := by simpa using hk
+        have low := hl F List.mem_cons_self hk'
+        simp only [List.filter_cons, hk', Bool.false_eq_true, ↓reduceIte, recsOf_cons, maxPrune_append]
+        refine ⟨by omega, ?_⟩
+        intro h hh
+        rw [entriesOf_append, low.entriesOf_nil h hh, i2 h hh]
+        simp
+  have hw := p.wm
+  refine ⟨by omega, ?_⟩
+  intro h hh
+  rw [key.2 h hh]
+  exact p.ents h hh
+
+/-- `cleanupObsoleteWALs`: some logs, all holding only records at or below the watermark, are
+unlinked -/
+theorem DInv.gc {d : Disk} {A : List Rec} (i : DInv d A) (dead : LogFile → Bool) (hw : d.wmVal = maxPrune A)
+    (ha : d.wmAlt = none) (hc : ∀ G ∈ d.files, G.garbage = false)
+    (hl : ∀ G ∈ d.files, dead G = true → Low (maxPrune A) (recsOfFile G)) :
+    DInv { d with files := d.files.filter (fun f => !dead f),
+                  zombies := d.files.filter (fun f => dead f) } A := by
+  have hlow : Low (maxPrune A) (recsOf (d.files.filter (fun f => dead f))) := by
     intro r hr
     unfold recsOf at hr
     obtain ⟨G, hG, hr'⟩ := List.mem_flatMap.mp hr
     have hm := List.mem_filter.mp hG
-    exact hl G hm.1 (by simpa using hm.2) r hr'
-  refine ⟨?_, ?_, ?_, ?_, ?_, ?_⟩
+    exact hl G hm.1 hm.2 r hr'
+  refine ⟨?_, ?_, ?_, ?_, ?_, ?_, ?_, ?_⟩
   · have := i.asc
     unfold numsAsc at *
     exact this.sublist (List.Sublist.map _ List.filter_sublist)
@@ -133,13 +176,13 @@ theorem DInv.gc {d : Disk} {A : List Rec} (i : DInv d A) (m : Nat) (hw : d.wmVal
     have := hc f (List.mem_filter.mp hfm).1
     simp [this] at hg
   · intro z hz; exact hc z (List.mem_filter.mp hz).1
-  · show Presents d.wmVal (recsOf (d.files.filter (fun f => !decide (f.num < m)))) A
+  · show Presents d.wmVal (recsOf (d.files.filter (fun f => !dead f))) A
     rw [hw]
-    have p := i.pres
-    rw [hsplit, recsOf_append] at p
-    exact p.drop hlow
+    exact i.pres.filter (fun f => !dead f) (fun G hG hk => hl G hG (by simpa using hk))
   · show Low d.wmVal _
     rw [hw]; exact hlow
+  · intro w hw'; simp [ha] at hw'
+  · intro w hw'; simp [ha] at hw'
 
 theorem nextNum_gt (fs : List LogFile) : ∀ F ∈ fs, F.num < nextNum fs := by
   unfold nextNum
